@@ -316,6 +316,35 @@ theorem reported_f32 (e : ScaledSpec) (he : e ∈ Scaled.all) (bs : List UInt8) 
     rfl | rfl | rfl | rfl | rfl | rfl <;>
     exact reported_general _ bs (by decide) (by decide) (by decide) (by decide) (by decide)
 
+/-- The statement as a whole, for any message that reports a table of scaled fields: each such field is either
+    absent — exactly when its own 'not available' code was transmitted (C11) — or an `f32` whose bit pattern is
+    that of the field's two's-complement (resp. unsigned) reading, scaled as the statement says, correct to the
+    roundings of the single-precision expression. -/
+theorem reported_value (m : Msg) (bs : List UInt8) (table : List ScaledSpec) (h : Reports m bs table)
+    (hsub : ∀ e ∈ table, e ∈ Scaled.all) (e : ScaledSpec) (he : e ∈ table) :
+    (m.get e.key = some .none ∧ e.sentinel = some (e.raw bs)) ∨
+      (m.get e.key = some (.f32 (e.raw bs) e.op) ∧ e.sentinel ≠ some (e.raw bs) ∧
+        Within (FOp.bits (e.raw bs) e.op) (FOp.exact (e.raw bs) e.op) (tolerance e)) := by
+  have hv := h e he
+  have hw := reported_f32 e (hsub e he) bs
+  unfold ScaledSpec.render at hv
+  cases hs : e.sentinel with
+  | none =>
+    right
+    rw [hs] at hv
+    exact ⟨hv, by simp, hw⟩
+  | some s =>
+    rw [hs] at hv
+    by_cases hr : e.raw bs = s
+    · left
+      simp only [hr, if_true] at hv
+      exact ⟨hv, by rw [hr]⟩
+    · right
+      simp only [hr, if_false] at hv
+      refine ⟨hv, ?_, hw⟩
+      intro hc
+      exact hr (Option.some.inj hc).symm
+
 /-- Non-vacuity and a hand-checkable instance: 2^27 in a 28-bit longitude is the most negative value,
     −2^27/600000 degrees, and the reported pattern is the single-precision number nearest to it. -/
 example : FOp.bits (toSigned 28 (2 ^ 27)) .div600000 = 0xC35FB23B := by decide +kernel
